@@ -126,3 +126,29 @@ func TestC09Many(t *testing.T) {
 			return c
 		}, Exec: exec})
 }
+
+// TestC09RefusedRemoveAll: the fault class of TestC09Faults that matters most for "hidden certificates can
+// still be removed" as a fixed grid: the underlying agent refuses one remove-all request.
+func TestC09RefusedRemoveAll(t *testing.T) {
+	var cases []vh.ShimCase
+	for _, kind := range []string{"fail", "malformed", "empty"} {
+		for _, hw := range []bool{false, true} {
+			c := vh.ShimCase{Certs: []vh.CertDef{
+				{Key: "p256b", KeyIDClass: "ysshca1", Validity: "forever", Serial: 1000},
+				{Key: "ed25519c", KeyIDClass: "text", Validity: "current", Serial: 1001},
+				{Key: "rsa1536", KeyIDClass: "ysshca5", Validity: "current", Serial: 1002}},
+				Initial: []vh.Op{{Kind: "oobadd", Key: "p384a", Cert: -1, Comment: "plain"}, {Kind: "oobaddcert", Cert: 0, Comment: "ysshca"}, {Kind: "oobaddcert", Cert: 1, Comment: "other"}, {Kind: "oobadd", Key: "rsa1536", Cert: -1}}}
+			if hw {
+				c.Ops = append(c.Ops, vh.Op{Kind: "addhard", Cert: 2, Comment: "hw"})
+			}
+			c.Ops = append(c.Ops, vh.Op{Kind: "list", Cert: -1},
+				vh.Op{Kind: "plan", Cert: -1, Plan: []vh.FaultRule{{Index: -1, Code: vh.CodeRemoveAll, Kind: kind, Remaining: 1}}},
+				vh.Op{Kind: "removeall", Cert: -1}, vh.Op{Kind: "plan", Cert: -1}, vh.Op{Kind: "list", Cert: -1}, vh.Op{Kind: "signers", Cert: -1},
+				vh.Op{Kind: "removeall", Cert: -1}, vh.Op{Kind: "list", Cert: -1})
+			cases = append(cases, c)
+		}
+	}
+	vh.Enumerate(t, vh.Spec[vh.ShimCase]{Property: "C09", Name: "TestC09RefusedRemoveAll", Exhaustive: true,
+		Rule: "an underlying agent holding a plain key, a YSSHCA certificate, another certificate and a token key (with or without a hardware certificate registered on it) refuses one remove-all request (failure reply, undecodable reply, empty reply); then list, signers, a second remove-all that is not refused, list - executed in no-upstream mode and with the mode off (6 pairs). Same model and oracle as TestC09Faults: a remove-all that reports success has removed everything, hidden certificates included; the operations after the refusal are judged as usual",
+		Exec: exec}, cases)
+}
